@@ -325,6 +325,9 @@ def run_gate(case, out, env):
         forms2.append(('index=np.int64', lambda q, op: impl_ct(q, op, ctl, np.int64(tgt[0])), True))
     forms2.append(('index=list', lambda q, op: impl_ct(q, op, ctl, list(tgt)), False))
     forms2.append(('index=ndarray', lambda q, op: impl_ct(q, op, ctl, np.array(tgt, dtype=np.int64)), False))
+    # the same ordered targets as non-contiguous index arrays: a reversed view and every second entry of a padded buffer
+    forms2.append(('index=ndarray[reversed view]', lambda q, op: impl_ct(q, op, ctl, np.array(tgt[::-1], dtype=np.int64)[::-1]), False))
+    forms2.append(('index=ndarray[strided view]', lambda q, op: impl_ct(q, op, ctl, np.stack([np.array(tgt, dtype=np.int64), np.full(len(tgt), 99)], axis=1)[:, 0]), False))
     if ctl:
         if len(ctl) == 1:
             forms2.append(('control=np.int64', lambda q, op: st.apply_control_n_gate(q, op, np.int64(ctl[0]), tgt), True))
